@@ -9,6 +9,7 @@
   downwards is `C03_sweep_refines_sequential` (EpsieProps/C03.lean).
 -/
 import EpsieProofs.SweepApply
+import EpsieProofs.SweepPerm
 import EpsieProps.C08
 namespace Epsie.C09
 open Chain
@@ -130,6 +131,132 @@ theorem C09_colder_moves_up_at_most_one (betas logls us : List Rat) (row : Swap.
     · omega
     · exact this.above t v (by omega) hv
 
+/-- `swap_index` is a PERMUTATION of the level numbers, for every ladder length, ladder,
+    log-likelihood assignment and every outcome of the random decisions: each level number occurs
+    exactly once — no state is duplicated and none is lost by the bookkeeping of a sweep. -/
+theorem C09_swap_index_is_permutation (betas logls us : List Rat) (row : Swap.Row) (rest : List Rat)
+    (h : Swap.sweep betas logls us = some (row, rest)) :
+    row.idx.Perm (List.range betas.length) ∧ row.idx.Nodup ∧ ∀ k, k ∈ row.idx ↔ k < betas.length := by
+  have hp := Swap.sweep_perm betas logls us row rest h
+  refine ⟨hp, hp.nodup_iff.mpr List.nodup_range, ?_⟩
+  intro k
+  rw [hp.mem_iff, List.mem_range]
+
+/-- CONSERVATION: applying a sweep whose `swap_index` is a permutation (which it always is:
+    `C09_swap_index_is_permutation`) to levels that have just been stepped leaves the collection of
+    complete states (position, log-likelihood, log-prior, blob as ONE value) unchanged as a multiset:
+    the states are re-dealt over the levels, none is lost, duplicated or altered. -/
+theorem C09_states_conserved (reset : Bool) (ls : List Chain) (idx : List Nat)
+    (hperm : idx.Perm (List.range ls.length))
+    (hlast : ∀ l ∈ ls, 0 < l.len ∧ ∃ r, rowAt l.scratch (l.len - 1) = some r) :
+    ((PTChain.applySwap reset ls idx).map (·.current)).Perm (ls.map (·.current)) := by
+  have hlen : idx.length = ls.length := by simpa using hperm.length_eq
+  have hmem : ∀ t (ht : t < idx.length), idx[t] < ls.length := by
+    intro t ht
+    have : idx[t] ∈ List.range ls.length := hperm.mem_iff.mp (List.getElem_mem ht)
+    simpa using this
+  -- after the sweep, level t holds what level idx[t] held
+  have h1 : (PTChain.applySwap reset ls idx).map (·.current)
+      = idx.map (fun k => (ls.map (·.current)).getD k none) := by
+    apply List.ext_getElem
+    · simp [applySwap_length, hlen]
+    · intro t h₁ h₂
+      have ht : t < ls.length := by simpa [applySwap_length] using h₁
+      have hti : t < idx.length := by omega
+      have hd : idx.getD t t = idx[t] := by simp [List.getD, List.getElem?_eq_getElem hti]
+      have hsrc : idx.getD t t < ls.length := by rw [hd]; exact hmem t hti
+      have := (C09_whole_state_permuted reset ls idx t ht hsrc hlast).1
+      simp only [List.getElem_map]
+      have hget : ∀ k (hk : k < ls.length), (ls[k]).current = (ls.map (·.current)).getD k none := by
+        intro k hk; simp [List.getD, List.getElem?_eq_getElem hk]
+      rw [this, hget _ hsrc, hd]
+  have h2 : (List.range ls.length).map (fun k => (ls.map (·.current)).getD k none) = ls.map (·.current) := by
+    apply List.ext_getElem
+    · simp
+    · intro t h₁ h₂
+      have ht : t < ls.length := by simpa using h₁
+      simp [List.getD, List.getElem?_eq_getElem ht]
+  rw [h1]
+  exact (hperm.map _).trans (List.Perm.of_eq h2)
+
+/-- Every level that has just been stepped has a last record. -/
+theorem stepLevels_last {ls ls' : List Chain} {is : List Chain.StepIn} (hinv : ∀ l ∈ ls, Inv l)
+    (h : PTChain.stepLevels ls is = some ls') :
+    ls'.length = ls.length ∧ ∀ l ∈ ls', 0 < l.len ∧ ∃ r, rowAt l.scratch (l.len - 1) = some r := by
+  induction ls generalizing is ls' with
+  | nil => simp [PTChain.stepLevels] at h; subst h; simp
+  | cons l ls ih =>
+    cases is with
+    | nil => simp [PTChain.stepLevels] at h
+    | cons i is =>
+      simp only [PTChain.stepLevels, bind, Option.bind] at h
+      cases h1 : l.step i with
+      | none => simp [h1] at h
+      | some l' =>
+        simp only [h1] at h
+        cases h2 : PTChain.stepLevels ls is with
+        | none => simp [h2] at h
+        | some ls'' =>
+          simp [h2] at h; subst h
+          obtain ⟨hl, hrest⟩ := ih (fun z hz => hinv z (by simp [hz])) h2
+          refine ⟨by simp [hl], ?_⟩
+          intro x hx
+          simp at hx
+          rcases hx with rfl | hx
+          · have hi := hinv l (by simp)
+            have hi' := inv_step hi h1
+            obtain ⟨cur, _, hit, hlc, _⟩ := step_fields h1
+            have hlen : x.len = l.len + 1 := by
+              have := hi.lc_le
+              simp [len_def, hit, hlc]; omega
+            exact ⟨by omega, hi'.rows (x.len - 1) (by omega)⟩
+          · exact hrest x hx
+
+theorem setBetas_currents (c : PTChain) (nb : List Rat) :
+    (c.setBetas nb).levels.map (·.current) = c.levels.map (·.current) := by
+  unfold PTChain.setBetas
+  simp only [List.map_map]
+  apply List.ext_getElem
+  · simp
+  · intro t h₁ h₂
+    simp only [List.getElem_map, Function.comp, List.getElem_zip]
+    rfl
+
+/-- ONE ITERATION CONSERVES THE STATES. For every chain whose levels are structurally sound
+    (`Inv`: true of every reachable chain) and whose ladder has one beta per level: an iteration
+    first steps every level (giving `ls`) and then, whether or not a sweep is due and whatever the
+    sweep decides, the complete states held by the levels afterwards are exactly those of `ls`,
+    re-dealt: the sweep moves whole states and neither loses, duplicates nor alters any. -/
+theorem C09_iteration_conserves_states {c c' : PTChain} {i : PTChain.StepIn}
+    (hinv : ∀ l ∈ c.levels, Inv l) (hb : c.betas.length = c.levels.length) (h : c.step i = some c') :
+    ∃ ls, PTChain.stepLevels c.levels i.levels = some ls ∧
+      (c'.levels.map (·.current)).Perm (ls.map (·.current)) := by
+  unfold PTChain.step at h
+  simp only [bind, Option.bind] at h
+  cases h1 : PTChain.stepLevels c.levels i.levels with
+  | none => simp [h1] at h
+  | some ls =>
+    simp only [h1] at h
+    refine ⟨ls, rfl, ?_⟩
+    obtain ⟨hlen, hlast⟩ := stepLevels_last hinv h1
+    split at h
+    · unfold PTChain.swapTemperatures at h
+      split at h
+      · rename_i row hsw
+        simp only [Option.some.injEq] at h
+        subst h
+        have hperm : row.idx.Perm (List.range ls.length) := by
+          have := Swap.sweep_perm _ _ _ _ _ hsw
+          simpa [hb, hlen] using this
+        have hcons := C09_states_conserved c.resetAfterSwap ls row.idx hperm hlast
+        unfold PTChain.afterSweep
+        simp only
+        split
+        · rw [setBetas_currents]; exact hcons
+        · exact hcons
+      · simp at h
+    · simp [pure] at h; subst h; exact List.Perm.refl _
+
 /-- The swap history: the row of a sweep is stored at the index equal to the number of
     earlier sweeps since the last clear (so one row per sweep, in order, never overwriting
     an earlier one), whatever the swap interval and wherever the last clear fell. -/
@@ -231,6 +358,26 @@ example : (∀ l ∈ pt1.levels, 0 < l.len ∧ ∃ r, rowAt l.scratch (l.len - 1
   have := List.all_eq_true.mp h.1 l hl
   simp only [Bool.and_eq_true, decide_eq_true_eq] at this
   exact ⟨this.1, Option.isSome_iff_exists.mp this.2⟩
+
+/-- The hypotheses of `C09_iteration_conserves_states` are met by the chain of `C08.ops0` right
+    before its iteration (start positions set, scratch grown), and that iteration succeeds. -/
+def pt0 : PTChain := PTChain.runOps (PTChain.fresh [1, 1/2] 1 [C08.cfg0]) (C08.ops0.take 2)
+
+example : (∀ l ∈ pt0.levels, Inv l) ∧ pt0.betas.length = pt0.levels.length ∧
+    ∃ i c', C08.ops0[2]? = some (.step i) ∧ pt0.step i = some c' := by
+  refine ⟨?_, by decide +kernel, ?_⟩
+  · exact lift_runOps Chain.Inv (fun c op h => inv_apply h op) (fun c b h => ⟨h.1, h.2⟩)
+      (c := PTChain.fresh [1, 1/2] 1 [C08.cfg0]) (by
+        intro l hl
+        simp only [PTChain.fresh, List.mem_map] at hl
+        obtain ⟨b, _, rfl⟩ := hl
+        exact inv_fresh b [C08.cfg0] 0) (C08.ops0.take 2)
+  · have h : (pt0.step
+        { levels := [ { jumps := [[.num 3]], eval := C08.m0 [.num 3], rev := [0], fwd := [0], logu := -1 },
+                      { jumps := [[.num 0]], eval := C08.m0 [.num 0], rev := [0], fwd := [0], logu := 0 } ],
+          sweep := { us := [], newBetas := [] } }).isSome = true := by decide +kernel
+    obtain ⟨c', hc'⟩ := Option.isSome_iff_exists.mp h
+    exact ⟨_, c', rfl, hc'⟩
 
 /-- A three-level sweep in which a uniform decides: the hottest state descends two levels in
     one sweep, each colder state moves up exactly one; with a larger uniform the second
